@@ -4,7 +4,7 @@ from __future__ import annotations
 import z3
 from pyvc.theory import *
 from pyvc.contract import *
-from .graph_spec import A, FA
+from .graph_spec import A, FA, inv_fn, distinct_by
 
 ASSET, ASSOC, MODEL = 'Asset', 'Association', 'Model'
 
@@ -94,8 +94,7 @@ def wf_att(h: H, a, tag='wa'):
         ('A.elems', FA([k], z3.And(h.bag(E, k) >= 0, z3.Implies(h.bag(E, k) > 0, is_VRef(k))), [h.bag(E, k)])),
         ('A.tuples', FA([t], z3.Implies(ep_of(h, a, t), z3.And(h.cls(t) == class_id(EP), owned(h, h.f('t1', t), t, 't1'), h.cnt(E, t) <= 1)),
                         [h.cnt(E, t)])),
-        ('A.one-tuple-per-asset', FA([t, u], z3.Implies(z3.And(ep_of(h, a, t), ep_of(h, a, u), h.f('t0', t) == h.f('t0', u)), t == u),
-                                     [(h.cnt(E, t), h.cnt(E, u))])),
+        ('A.one-tuple-per-asset', distinct_by(h, E, h.arr['f_t0'], lambda q: h.f('t0', q), 'tup')),
         ('A.steps', FA([t, k], z3.Implies(ep_of(h, a, t), z3.And(h.bag(h.f('t1', t), k) >= 0, z3.Implies(h.bag(h.f('t1', t), k) > 0, is_VStr(k)))),
                        [h.bag(h.f('t1', t), k)])),
     ]
@@ -125,7 +124,10 @@ def wf_model(h: H, M, parts=('M0', 'M1', 'M2', 'M3', 'M4', 'M5')):
             ('M0.own.bucket', FA([k], z3.Implies(h.has(D, k), z3.And(is_VRef(h.val(D, k)), is_VStr(k), owned(h, v_a(h.val(D, k)), D, BUCKET),
                                                                     h.cls(v_a(h.val(D, k))) == CLS_LIST, v_a(h.val(D, k)) >= 0, v_a(h.val(D, k)) < h.alloc)),
                                  [h.has(D, k)], )),
-            ('M0.bucket-keys', FA([k, k2], z3.Implies(z3.And(h.has(D, k), h.has(D, k2), h.val(D, k) == h.val(D, k2)), k == k2), [(h.has(D, k), h.has(D, k2))])),
+            ('M0.bucket-keys', Dual(
+                FA([k, k2], z3.Implies(z3.And(h.has(D, k), h.has(D, k2), h.val(D, k) == h.val(D, k2)), k == k2), [(h.has(D, k), h.has(D, k2))]),
+                FA([k], z3.Implies(h.has(D, k), inv_fn('INV!bucket', SetVB, MapVV, Val, Val)(z3.Select(h.arr['D_has'], D), z3.Select(h.arr['D_val'], D), h.val(D, k)) == k),
+                   [h.has(D, k)]))),
             ('M0.cls', z3.And(FA([x], z3.Implies(is_asset(h, M, x), h.cls(x) == class_id(ASSET)), [h.cnt(XL, x)]),
                               FA([s], z3.Implies(is_assoc(h, M, s), h.cls(s) == class_id(ASSOC)), [h.cnt(SL, s)]),
                               FA([a], z3.Implies(is_attk(h, M, a), h.cls(a) == class_id(AA)), [h.cnt(AL, a)]), h.cls(M) == class_id(MODEL))),
@@ -143,10 +145,8 @@ def wf_model(h: H, M, parts=('M0', 'M1', 'M2', 'M3', 'M4', 'M5')):
         out += [
             ('M1.nodup', FA([x], h.cnt(XL, x) <= 1, [h.cnt(XL, x)])),
             ('M1.ids', FA([x], z3.Implies(is_asset(h, M, x), z3.And(is_VInt(h.f('id', x)), h.f('has_name', x))), [h.cnt(XL, x)])),
-            ('M1.ids-distinct', FA([x, y], z3.Implies(z3.And(is_asset(h, M, x), is_asset(h, M, y), h.f('id', x) == h.f('id', y)), x == y),
-                                   [(h.cnt(XL, x), h.cnt(XL, y))])),
-            ('M1.names-distinct', FA([x, y], z3.Implies(z3.And(is_asset(h, M, x), is_asset(h, M, y), h.f('name', x) == h.f('name', y)), x == y),
-                                     [(h.cnt(XL, x), h.cnt(XL, y))])),
+            ('M1.ids-distinct', distinct_by(h, XL, h.arr['f_id'], lambda q: h.f('id', q), 'aid')),
+            ('M1.names-distinct', distinct_by(h, XL, h.arr['f_name'], lambda q: h.f('name', q), 'anm')),
         ]
     if 'M2' in parts:
         out += [
@@ -185,10 +185,17 @@ def wf_model(h: H, M, parts=('M0', 'M1', 'M2', 'M3', 'M4', 'M5')):
             ('M5.tuples', FA([a, t], z3.Implies(z3.And(is_attk(h, M, a), ep_of(h, a, t)),
                                                 z3.And(h.cls(t) == class_id(EP), owned(h, h.f('t1', t), t, 't1'), h.cnt(E(a), t) <= 1,
                                                        is_asset(h, M, h.f('t0', t)))), [h.cnt(E(a), t)])),
-            ('M5.one-tuple-per-asset', FA([a, t, u], z3.Implies(z3.And(is_attk(h, M, a), ep_of(h, a, t), ep_of(h, a, u), h.f('t0', t) == h.f('t0', u)), t == u),
-                                          [(h.cnt(E(a), t), h.cnt(E(a), u))])),
-            ('M5.tuples-unshared', FA([a, b, t], z3.Implies(z3.And(is_attk(h, M, a), is_attk(h, M, b), ep_of(h, a, t), ep_of(h, b, t)), a == b),
-                                      [(h.cnt(E(a), t), h.cnt(E(b), t))])),
+            ('M5.one-tuple-per-asset', Dual(
+                FA([a, t, u], z3.Implies(z3.And(is_attk(h, M, a), ep_of(h, a, t), ep_of(h, a, u), h.f('t0', t) == h.f('t0', u)), t == u),
+                   [(h.cnt(E(a), t), h.cnt(E(a), u))]),
+                FA([a, t], z3.Implies(z3.And(is_attk(h, M, a), ep_of(h, a, t)),
+                                      inv_fn('INV!tup!Int', BagSort, h.arr['f_t0'].sort(), Addr, Addr)(h.bagof(E(a)), h.arr['f_t0'], h.f('t0', t)) == t), [h.cnt(E(a), t)]))),
+            ('M5.tuples-unshared', Dual(
+                FA([a, b, t], z3.Implies(z3.And(is_attk(h, M, a), is_attk(h, M, b), ep_of(h, a, t), ep_of(h, b, t)), a == b),
+                   [(h.cnt(E(a), t), h.cnt(E(b), t))]),
+                FA([a, t], z3.Implies(z3.And(is_attk(h, M, a), ep_of(h, a, t)),
+                                      inv_fn('INV!owner', BagSort, h.arr['f_entry_points'].sort(), h.arr['L_bag'].sort(), Addr, Addr)(
+                                          h.bagof(AL), h.arr['f_entry_points'], h.arr['L_bag'], t) == a), [h.cnt(E(a), t)]))),
             ('M5.steps', FA([a, t, k], z3.Implies(z3.And(is_attk(h, M, a), ep_of(h, a, t)),
                                                   z3.And(h.bag(h.f('t1', t), k) >= 0, z3.Implies(h.bag(h.f('t1', t), k) > 0, is_VStr(k)))),
                             [(h.cnt(E(a), t), h.bag(h.f('t1', t), k))])),
